@@ -2,6 +2,7 @@ package main
 
 import (
 	"fmt"
+	"os"
 	"go/types"
 	"sort"
 	"strings"
@@ -192,30 +193,78 @@ func (f *Frame) tryVal(v ssa.Value) (val Val, ok bool) {
 	return f.val(v), true
 }
 
-// localsAt collects the source-level variables visible at block b (latest dominating definition).
+// localsAt resolves the source-level variables visible at block b: for each variable, the latest SSA value bound to it
+// (by a debug reference or a named phi) whose definition dominates b. Phis of b itself are included on request.
 func (f *Frame) localsAt(b *ssa.BasicBlock, includeOwnPhis bool) map[string]ssa.Value {
-	out := map[string]ssa.Value{}
-	var chain []*ssa.BasicBlock
-	for x := b; x != nil; x = x.Idom() {
-		chain = append(chain, x)
+	type cand struct {
+		v     ssa.Value
+		depth int
+		idx   int
+		cnst  bool
 	}
-	for i := len(chain) - 1; i >= 0; i-- {
-		blk := chain[i]
+	best := map[string]cand{}
+	depthOf := func(blk *ssa.BasicBlock) int {
+		d := 0
+		for x := blk; x != nil; x = x.Idom() {
+			d++
+		}
+		return d
+	}
+	consider := func(name string, v ssa.Value) {
+		var c cand
+		c.v = v
+		switch d := v.(type) {
+		case *ssa.Parameter, *ssa.FreeVar:
+			c.depth, c.idx = 0, 0
+		case *ssa.Const:
+			c.cnst = true
+			c.depth, c.idx = -1, 0
+		case ssa.Instruction:
+			blk := d.Block()
+			if blk == nil {
+				return
+			}
+			if blk == b {
+				if _, isPhi := v.(*ssa.Phi); !isPhi || !includeOwnPhis {
+					return
+				}
+			} else if !blk.Dominates(b) {
+				return
+			}
+			c.depth = depthOf(blk)
+			for i, ins := range blk.Instrs {
+				if ins == d {
+					c.idx = i
+				}
+			}
+		default:
+			return
+		}
+		old, ok := best[name]
+		if !ok || (old.cnst && !c.cnst) || (!c.cnst && (c.depth > old.depth || (c.depth == old.depth && c.idx > old.idx))) {
+			best[name] = c
+		}
+	}
+	for _, blk := range f.fn.Blocks {
 		for _, ins := range blk.Instrs {
 			switch x := ins.(type) {
 			case *ssa.Phi:
-				if x.Comment != "" && (blk != b || includeOwnPhis) {
-					out[x.Comment] = x
+				if x.Comment != "" {
+					consider(x.Comment, x)
 				}
 			case *ssa.DebugRef:
-				if blk == b {
-					continue // header's own non-phi instructions run after the invariant point
-				}
 				if v, ok := x.Object().(*types.Var); ok && !x.IsAddr {
-					out[v.Name()] = x.X
+					if _, isConst := x.X.(*ssa.Const); isConst && !blk.Dominates(b) {
+						continue
+					}
+					consider(v.Name(), x.X)
 				}
 			}
 		}
+	}
+	out := map[string]ssa.Value{}
+	for n, c := range best {
+		out[n] = c.v
 	}
 	return out
 }
@@ -296,6 +345,14 @@ func (f *Frame) enterLoop(li *loopInfo) *BState {
 			}
 		}
 		f.addIterNames(env, li, st0.heap)
+		if os.Getenv("GOVC_DEBUG") != "" {
+			for k, v := range env {
+				fmt.Fprintf(os.Stderr, "DEBUG %s loop%d env %s = %#v\n", f.fn.Name(), li.ordinal, k, v)
+			}
+			for name, v := range f.localsAt(li.header, true) {
+				fmt.Fprintf(os.Stderr, "DEBUG local %s -> %T %s = %#v\n", name, v, v.Name(), f.vals[v])
+			}
+		}
 		for k, cl := range li.lc.Invariants {
 			goal := f.safeEval(cl, st0.heap, env)
 			s.addObl(&Obligation{Name: fmt.Sprintf("%s.inv[%d].init", lname, k+1), Kind: "inv.init", Guard: st0.reach, Goal: goal,
@@ -382,7 +439,7 @@ func (f *Frame) addIterNames(env map[string]Val, li *loopInfo, heap Heap) {
 			env["iterpos"] = S{f.s.hget(heap, fmt.Sprintf("it%d.pos", it.ID), "Int"), intT}
 		} else {
 			mi := f.mapInfo(it.OverType)
-			env["visited"] = S{f.s.hget(heap, fmt.Sprintf("it%d.vis", it.ID), arrSort(mi.kSort, "Bool")), types.NewMap(mi.kType, types.Typ[types.Bool])}
+			env["itervisited"] = GhostSet{f.s.hget(heap, fmt.Sprintf("it%d.vis", it.ID), arrSort(mi.kSort, "Bool"))}
 			env["itercount"] = S{f.s.hget(heap, fmt.Sprintf("it%d.cnt", it.ID), "Int"), intT}
 		}
 	}
